@@ -36,6 +36,7 @@ failures is only evidence.
 """
 import ast
 import itertools
+import logging
 import os
 import sys
 import threading
@@ -189,6 +190,8 @@ class C16Policy(pg.tuning.EarlyStoppingPolicy):
 
 _SPACE_EXPR = "pg.dna_spec(pg.Dict(x=pg.oneof([1, 2, 3]), y=pg.oneof(['a', 'b', 'c', 'd'])))"
 _SMALL_SPACE_EXPR = "pg.dna_spec(pg.oneof([1, 2, 3]))"
+# (a hyper value instead of a DNASpec: pg.sample then decodes every trial)
+_HYPER_SPACE_EXPR = "pg.Dict(x=pg.oneof([1, 2, 3]), y=pg.oneof(['a', 'b', 'c', 'd']))"
 
 _ALGOS = {
     'random': "pg.geno.Random(seed={seed})",
@@ -264,7 +267,39 @@ def _action(cfg, tid, widx):
   return acts[i % len(acts)]
 
 
+# Values used as worker-group ids.  The documented type of `group` is "a string
+# or an integer"; every value of that type names a group, including 0 and ''.
+# (No pool holds two ids with the same str().)
+_GID_POOLS = {
+    'int-from-zero': lambda i: i,
+    'str-empty-first': lambda i: ('' if i == 0 else f'g{i}'),
+    'int-non-positive': lambda i: -i,
+    'mixed-int-str': lambda i: (0, 'zero', '', 7, ' ', -1, 'None', 3)[i % 8],
+}
+
+
+def _gid_class(g):
+  if g is None:
+    return 'none'
+  if isinstance(g, (int, str)) and not g:
+    return 'zero-or-empty'
+  return 'int' if isinstance(g, int) else 'str'
+
+
 def _groups(cfg):
+  base = _default_groups(cfg)
+  style = cfg.get('gids', 'default')
+  if style == 'default':
+    return base
+  order = []
+  for g in base:
+    if g is not None and g not in order:
+      order.append(g)
+  pool = _GID_POOLS[style]
+  return [None if g is None else pool(order.index(g)) for g in base]
+
+
+def _default_groups(cfg):
   w = cfg['W']
   lay = cfg['layout']
   if lay == 'none':
@@ -418,6 +453,27 @@ def _worker(cfg, widx, group, leader, algo, space, name, log, evs, start_evt, fi
             fb.skip()
           else:
             fb.done()
+        elif act == 'early':
+          # done() before any measurement exists cannot complete the trial
+          # (there is nothing to report): whatever it does, the proper finish
+          # that follows must complete and report the trial.  (A co-worker
+          # may have added its measurement already: same reward then.)
+          try:
+            fb.done()
+          except pg.tuning.RaceConditionError:
+            raise
+          except Exception:  # pylint: disable=broad-except
+            pass
+          fb(rew)
+        elif act == 'redo':
+          # operations on a trial this worker has finished change nothing.
+          fb(rew)
+          for op in (fb.done, fb.skip,
+                     lambda: fb.add_measurement(rew + 100.0, step=9), fb.done):
+            try:
+              op()
+            except Exception:  # pylint: disable=broad-except
+              pass
         else:
           raise ValueError(act)
 
@@ -443,6 +499,8 @@ def _worker(cfg, widx, group, leader, algo, space, name, log, evs, start_evt, fi
     _tls.rng = None
     _tls.on_propose = None
     _tls.worker = False
+    if first_evt is not None:
+      first_evt.set()     # (a loop of 0 trials never delivers a first trial)
 
 
 def run_scenario(cfg, seed_tag):
@@ -455,7 +513,7 @@ def run_scenario(cfg, seed_tag):
     shared = _make_algo(cfg['algo'], cfg['salt'])
     # Set up in the main thread: concurrent first callers would otherwise
     # race on the lazy `algorithm.setup` inside the backend constructor.
-    shared.setup(space)
+    shared.setup(space if isinstance(space, pg.DNASpec) else pg.dna_spec(space))
     algos = [shared] * w
   else:
     algos = [_make_algo(cfg['algo'], cfg['salt'] + i) for i in range(w)]
@@ -602,14 +660,17 @@ def check_run(obs):
   seq = [o[1:] for o in log.overlaps if o[0] == 'sequential']
   race = [o[1:] for o in log.overlaps if o[0] == 'racing']
   stuck = [(widx_of[e[0]], e[2]) for e in events if e[1] == 'stuck']
-  put(f'group.one-pending-trial-shared/{scen}/pending-before-the-next-call-began', not seq,
+  # (runs whose group ids are not the plain names get their own ids: a defect
+  # in how a group id *value* is treated is not a defect of the locking.)
+  gsfx = '' if cfg.get('gids', 'default') == 'default' else '/group-ids=' + cfg['gids']
+  put(f'group.one-pending-trial-shared/{scen}/pending-before-the-next-call-began{gsfx}', not seq,
       '(group, pending trial, new trial): a worker asked for its next trial after a co-worker '
       f'had been handed a trial that is still pending, and got a fresh one: {seq[:5]}')
-  put(f'group.one-pending-trial-shared/{scen}/overlapping-next-calls', not race and not stuck,
+  put(f'group.one-pending-trial-shared/{scen}/overlapping-next-calls{gsfx}', not race and not stuck,
       '(group, pending trial, new trial): two workers of a group asking at the same time were '
       f'given different new trials: {race[:5]}; (worker, trial) left alone with a pending '
       f'trial because its finisher was told that the loop is over: {stuck[:5]}')
-  if (seq or race or stuck) and scen == 'co-workers-single-finisher':
+  if (seq or race or stuck) and (scen == 'co-workers-single-finisher' or gsfx):
     return out    # the extra trial has no finisher: later checks are consequences
   # --- expected completion per trial -------------------------------------------
   fed = {}
@@ -751,11 +812,27 @@ def _pressure(seed):
 
 
 def _scenarios(tier, seed):
-  """Yields (cfg, repeats)."""
+  """Yields (cfg, repeats): pressure scenarios, then the two grids interleaved."""
+  for cfg in _pressure(seed):
+    yield cfg, (5 if tier == 'quick' else 8)
+  g1, g2 = _grid1(tier, seed), _grid2(tier, seed)
+  while g1 is not None or g2 is not None:
+    for which in (1, 2):
+      g = g1 if which == 1 else g2
+      if g is None:
+        continue
+      try:
+        yield next(g)
+      except StopIteration:
+        if which == 1:
+          g1 = None
+        else:
+          g2 = None
+
+
+def _grid1(tier, seed):
   r = rng(seed, 'c16-scenarios')
   quick = tier == 'quick'
-  for cfg in _pressure(seed):
-    yield cfg, (5 if quick else 8)
   k = 0
   for w in range(2, 9):
     for acts, policy, endl, brk in _MIXES:
@@ -792,6 +869,68 @@ def _scenarios(tier, seed):
 
 
 _QUICK_STRIDE = 12
+
+# Second grid: the same layouts with (a) group ids of every documented kind
+# (ints from 0, the empty string, negative ints, ints and strings mixed),
+# (b) fewer requested trials than workers / groups (0, 1, W-1), (c) finishers
+# that call done() before a measurement exists and then finish properly, or
+# that repeat done/skip/add_measurement on the trial they have finished,
+# (d) now and then a hyper value as the search space.  One feature is the subject of a
+# scenario; the others are mixed in with a seeded probability.
+_MIXES2 = [
+    (('early',), False, False, False),
+    (('early', 'redo', 'done2'), False, False, False),
+    (('redo', 'skip', 'early', 'policy'), True, False, False),
+    (('early', 'skip-m', 'redo'), False, True, True),
+    (('redo', 'early'), False, True, False),
+]
+_FEATURES2 = ('group-ids', 'small-N', 'refused-and-repeated-finish')
+_QUICK_STRIDE2 = 5
+
+
+def _grid2(tier, seed):
+  r = rng(seed, 'c16-scenarios-grid2')
+  quick = tier == 'quick'
+  k = 0
+  for w in (2, 3, 4, 5, 6, 8):
+    for lay in _SOLO + _COW:
+      for feat in _FEATURES2:
+        if lay == 'mixed-racing' and w < 4:
+          continue
+        if lay == 'none' and feat == 'group-ids':
+          continue
+        k += 1
+        acts, policy, endl, brk = r.choice(
+            _MIXES2 if (feat == 'refused-and-repeated-finish' or r.random() < 0.3) else _MIXES)
+        if lay == 'pairs-single':
+          endl = brk = False
+        gids = (r.choice(sorted(_GID_POOLS)) if (feat == 'group-ids' or r.random() < 0.3)
+                else 'default')
+        if feat == 'small-N':
+          n = r.choice((0, 1, 1, w - 1, max(1, len(set(_default_groups(dict(W=w, layout=lay)))) - 1)))
+        else:
+          n = w + r.randrange(0, 6)
+        algo = r.choice(('random', 'regevo', 'evo-keep-all'))
+        adv = r.choice(((0.03, 0.3), (0.1, 0.15), (0.01, 0.5), (0.05, 0.3)))
+        cfg = dict(
+            W=w, N=n, layout=lay, actions=acts, policy=policy,
+            end_at=(max(1, n - r.randrange(1, 4)) if endl else None),
+            breakers=({i: 1 + r.randrange(2) for i in range(1, w, 2)} if brk else {}),
+            algo=algo,
+            algos=('per-worker' if (algo == 'random' and r.random() < 0.3) else 'shared'),
+            # (decoding every trial is slow under a 1us switch interval: the
+            # lock-step driver below uses hyper values throughout)
+            space=(_HYPER_SPACE_EXPR if r.random() < 0.12 else _SPACE_EXPR),
+            start=('simultaneous' if (r.random() < 0.35 and lay != 'pairs-single')
+                   else 'staggered'),
+            trace=(r.random() < 0.7), probe_yield=(r.random() < 0.5),
+            p_cold=adv[0], p_hot=adv[1],
+            rewards=r.choice(('mod5', 'negative', 'increasing')),
+            sync=(lay != 'pairs-single' and not brk and r.random() < 0.3),
+            salt=r.randrange(1000), gids=gids, feature=feat)
+        if quick and (k + seed) % _QUICK_STRIDE2 != 0:
+          continue
+        yield cfg, (1 if quick else 2)
 
 
 def _witness(cfg, case_id):
@@ -852,7 +991,633 @@ def drv_concurrent_sampling(tier, seed):
   return rec.result()
 
 
-DRIVERS = [drv_concurrent_sampling]
+# ---------------------------------------------------------------------------
+# Deterministic (lock-step) drivers.  The schedules are fixed by barriers, so
+# these cases do not depend on luck: they cover the *inputs* of the loop (the
+# values used as group ids, the name, N, the kind of search space, re-entering
+# the loop) and the *order of operations* on one trial (refused operations,
+# operations after completion, measurement by one co-worker and done() by
+# another).
+# ---------------------------------------------------------------------------
+
+_BARRIER_SECS = 20.0
+
+
+def _fed_by_serial(probes):
+  fed = {}
+  for a in {id(a): a for a in probes}.values():
+    for s, rwd in list(a._fed):  # pylint: disable=protected-access
+      fed.setdefault(s, []).append(rwd)
+  return fed
+
+
+def _check_books(put, prefix, result, probes, outcome):
+  """Quiescence invariants of the statement; `outcome`: trial id -> ('ok', r) | ('skip',)."""
+  trials = list(result.trials)
+  m = len(trials)
+  ids = [t.id for t in trials]
+  put(f'{prefix}/ids-1..N-each-once', sorted(ids) == list(range(1, m + 1)), f'trial ids {ids}')
+  serials = [t.dna.metadata.get('c16') for t in trials]
+  put(f'{prefix}/distinct-dna-proposals', len(set(serials)) == m,
+      f'two trials share one proposal of the algorithm: {serials}')
+  unfinished = [t.id for t in trials if t.status != 'COMPLETED']
+  put(f'{prefix}/all-trials-completed', not unfinished,
+      f'trials {unfinished} are not COMPLETED at quiescence')
+  unknown = [t.id for t in trials if t.id not in outcome]
+  put(f'{prefix}/every-trial-delivered-and-finished', not unknown,
+      f'trials {unknown} exist but no worker was handed them / finished them')
+  fed = _fed_by_serial(probes)
+  wrong_state, wrong_fb = [], []
+  for t in trials:
+    if t.id not in outcome:
+      continue
+    o = outcome[t.id]
+    want_inf = o[0] == 'skip'
+    fm = t.final_measurement
+    if (t.infeasible != want_inf or fm is None
+        or fm.reward != (0.0 if want_inf else o[1])):
+      wrong_state.append((t.id, t.status, t.infeasible, fm and fm.reward, o))
+    got = fed.get(t.dna.metadata.get('c16'), [])
+    if got != ([] if want_inf else [o[1]]):
+      wrong_fb.append((t.id, got, o))
+  put(f'{prefix}/trial-outcome', not wrong_state,
+      f'(trial, status, infeasible, final reward, what the workers did): {wrong_state[:4]}')
+  put(f'{prefix}/feedback-exactly-once-with-final-reward', not wrong_fb,
+      f'(trial, rewards fed back to the algorithm, what the workers did): {wrong_fb[:4]}')
+  summary = ast.literal_eval(result.format(compact=True))
+  inf_n = sum(1 for t in trials if t.infeasible)
+  put(f'{prefix}/status-counts',
+      (summary.get('status') == {'COMPLETED': f'{m}/{m}'}) if m else not summary.get('status'),
+      f'summary status {summary.get("status")}, expected COMPLETED {m}/{m}; trial statuses '
+      f'{[t.status for t in trials][:12]}')
+  put(f'{prefix}/infeasible-count',
+      summary.get('infeasible') == (f'{inf_n}/{m}' if inf_n else None),
+      f'summary infeasible {summary.get("infeasible")}, infeasible trials {inf_n}/{m}')
+  uniq = list({id(a): a for a in probes}.values())
+  n_ok = sum(1 for t in trials if outcome.get(t.id, ('skip',))[0] == 'ok')
+  np_ = sum(a.num_proposals for a in uniq)
+  nf_ = sum(a.num_feedbacks for a in uniq)
+  put(f'{prefix}/algorithm-counters', np_ == m and nf_ == n_ok,
+      f'algorithm.num_proposals={np_} (trials: {m}), num_feedbacks={nf_} '
+      f'(trials completed with a reward: {n_ok})')
+  best = result.best_trial
+  feas = [t for t in trials if not t.infeasible and t.final_measurement is not None]
+  if not feas:
+    put(f'{prefix}/best-none-without-feasible-trial', best is None,
+        f'best trial {best and best.id}')
+  else:
+    mx = max(t.final_measurement.reward for t in feas)
+    sb = summary.get('best_trial') or {}
+    put(f'{prefix}/best-is-feasible-with-maximal-reward',
+        best is not None and not best.infeasible and best.final_measurement is not None
+        and best.final_measurement.reward == mx and any(best is t for t in trials)
+        and sb.get('id') == best.id and sb.get('reward') == mx,
+        f'best trial {best and best.id} (infeasible={best and best.infeasible}, reward '
+        f'{best and best.final_measurement and best.final_measurement.reward}), summary {sb}; '
+        f'maximal reward of a feasible trial is {mx}')
+
+
+# --- (1) groups, names, N, re-entry ------------------------------------------
+
+_LS_GIDS = {
+    'str': ['a', 'b', 'c'],
+    'int-positive': [1, 2, 3],
+    'int-from-zero': [0, 1, 2],
+    'str-empty-first': ['', 'a', 'b'],
+    'int-non-positive': [-1, 0, -2],
+    'mixed-int-str': ['', 0, 'zero'],
+    'odd-str': [' ', 'None', '0.0'],
+    'big-int': [2 ** 63, -2 ** 31, 10 ** 20],
+}
+_LS_HYPER_EXPR = "pg.oneof([1, 2, 3, 4, 5])"    # (a small one: decoding is slow)
+_LS_NAMES = ('plain', ' ', '0', 'a/b c', 'None', 'é中')
+_LS_ACTS = ('call', 'add2-done', 'skip', 'split', 'early-split', 'skip-m', 'race-all')
+
+
+def _ls_worst_class(gs):
+  order = ['zero-or-empty', 'none', 'int', 'str']
+  return min((_gid_class(g) for g in gs), key=order.index)
+
+
+def _ls_worker(spec, widx, g, k, kk, name, algo, space, shared):
+  """One lock-step worker: co-worker `k` of `kk` of group `g`."""
+  barrier, rec, outcome, errors = (shared['barrier'], shared['rec'], shared['outcome'],
+                                   shared['errors'])
+  try:
+    kw = dict(spec['kw'])
+
+    def loop():
+      return iter(pg.sample(space, algo, num_examples=spec['N'], name=name, group=g, **kw))
+
+    it = loop()
+    exhausted = False
+    for rnd in range(spec['rounds']):
+      fb = None
+      if not exhausted:
+        try:
+          _, fb = next(it)
+        except StopIteration:
+          exhausted = True
+      rec[(widx, rnd)] = None if fb is None else (fb.id, fb.get_trial())
+      barrier.wait()                                     # everybody holds its trial
+      finishing = spec['finish'][rnd]
+      act = _LS_ACTS[(rnd + spec['salt'] + (0 if g is None else spec['gids'].index(g))) % len(_LS_ACTS)]
+      fin = (rnd + spec['salt']) % kk                     # the co-worker that finishes
+      other = (fin + 1) % kk
+      rew = None if fb is None else float(fb.id * 10 + rnd)
+      if (fb is not None and finishing and act == 'early-split' and kk > 1 and k == fin):
+        # phase 0: the 'evaluator' is too early.  With no measurement there is
+        # nothing to report, so the trial cannot be completed by this call.
+        try:
+          fb.done()
+        except Exception:  # pylint: disable=broad-except
+          pass
+      barrier.wait()                                     # phase 0 is over
+      if fb is not None and finishing:
+        if act in ('split', 'early-split') and kk > 1:
+          # phase A: the 'trainer' reports the measurement.
+          if k == other:
+            try:
+              fb.add_measurement(rew, step=1)
+            except pg.tuning.RaceConditionError as e:
+              if act == 'split':
+                raise
+              shared['notes'].append(
+                  ('finish.too-early-done-leaves-the-trial-pending/lock-step/co-workers',
+                   f'trial {fb.id}: a co-worker called done() before any measurement existed; '
+                   f'afterwards the measurement of the other co-worker is rejected: '
+                   f'{type(e).__name__}: {str(e)[:60]}... status={fb.get_trial().status}, '
+                   f'final_measurement={fb.get_trial().final_measurement}'))
+          if k == fin:
+            outcome[fb.id] = ('ok', rew)
+        elif act == 'race-all' and kk > 1:
+          with fb.ignore_race_condition():
+            fb(rew)
+          outcome[fb.id] = ('ok', rew)
+        elif k == fin:
+          if act == 'skip':
+            fb.skip()
+            outcome[fb.id] = ('skip',)
+          elif act == 'skip-m':
+            fb.add_measurement(rew, step=1)
+            fb.skip()
+            outcome[fb.id] = ('skip',)
+          elif act == 'add2-done':
+            fb.add_measurement(rew - 1.0, step=1)
+            fb.add_measurement(rew, step=2)
+            fb.done()
+            outcome[fb.id] = ('ok', rew)
+          else:
+            fb(rew)
+            outcome[fb.id] = ('ok', rew)
+      barrier.wait()                                     # phase A is over
+      if (fb is not None and finishing and act in ('split', 'early-split') and kk > 1
+          and k == fin):
+        fb.done()                                        # phase B: the 'evaluator' closes
+      barrier.wait()                                     # the round is over
+      if spec['reenter'] and rnd % 2 == 1 and not exhausted:
+        it = loop()                                      # leave the loop and enter it again
+  except threading.BrokenBarrierError:
+    pass
+  except BaseException as e:  # pylint: disable=broad-except
+    tb = traceback.extract_tb(e.__traceback__)
+    where = ' <- '.join(f'{os.path.basename(f.filename)}:{f.lineno}:{f.name}' for f in tb[-3:])
+    errors.append((widx, f'{type(e).__name__}: {e} [{where}]'))
+    barrier.abort()
+
+
+def run_lockstep(spec, tag):
+  """Runs one lock-step scenario; returns {case_id: (ok, message)}."""
+  name = f'c16ls-{os.getpid()}-{next(_run_counter)}-{tag}-{spec["name"]}'
+  space = eval(spec['space'], _NS)  # pylint: disable=eval-used
+  algo = _make_algo('random', spec['salt'])
+  algo.setup(space if isinstance(space, pg.DNASpec) else pg.dna_spec(space))
+  members = []          # (group id, co-worker index, co-workers in the group)
+  for g in spec['gids']:
+    members.extend((g, k, spec['K']) for k in range(spec['K']))
+  members.extend((None, 0, 1) for _ in range(spec['solos']))
+  shared = dict(barrier=threading.Barrier(len(members), timeout=_BARRIER_SECS),
+                rec={}, outcome={}, errors=[], notes=[])
+  threads = [threading.Thread(target=_ls_worker, daemon=True,
+                              args=(spec, i, g, k, kk, name, algo, space, shared))
+             for i, (g, k, kk) in enumerate(members)]
+  for t in threads:
+    t.start()
+  for t in threads:
+    t.join(3 * _BARRIER_SECS)
+  out = {}
+
+  def put(cid, ok, msg=''):
+    if cid in out and not out[cid][0]:
+      return
+    out[cid] = (bool(ok), msg)
+
+  hung = [i for i, t in enumerate(threads) if t.is_alive()]
+  put('liveness.all-workers-terminate/lock-step', not hung, f'workers {hung} still running')
+  if hung:
+    return out
+  try:
+    result = pg.poll_result(name)
+  except ValueError:
+    put('worker.no-unexpected-exception/lock-step', not shared['errors'],
+        f'worker errors: {shared["errors"][:3]}')
+    put('result.poll/lock-step', False, f'pg.poll_result({name!r}) does not know the study')
+    return out
+  rec = shared['rec']
+  gkey = [g if g is not None else ('thread', i) for i, (g, _, _) in enumerate(members)]
+  # demand of the schedule: a group asks for a new trial whenever it holds none.
+  demand = 0
+  for _ in set(gkey):
+    pending = False
+    for rnd in range(spec['rounds']):
+      if not pending:
+        demand += 1
+        pending = True
+      if spec['finish'][rnd]:
+        pending = False
+  want_n = min(spec['N'], demand)
+  ncls = ('zero' if spec['N'] == 0 else 'fewer-than-asked-for' if spec['N'] < demand
+          else 'as-asked-for' if spec['N'] == demand else 'ample')
+  bad_share, bad_disjoint, bad_keep, bad_new, foreign = [], [], [], [], []
+  owner = {}
+  prev = {}
+  for rnd in range(spec['rounds']):
+    per_group = {}
+    for i, gk in enumerate(gkey):
+      v = rec.get((i, rnd))
+      per_group.setdefault(gk, []).append(None if v is None else v[0])
+      if v is not None and not any(v[1] is t for t in result.trials):
+        foreign.append((rnd, i, v[0]))
+    for gk, tids in per_group.items():
+      if len(set(tids)) != 1:
+        bad_share.append((rnd, gk, tids))
+        continue
+      tid = tids[0]
+      if tid is None:
+        continue
+      if owner.setdefault(tid, gk) != gk:
+        bad_disjoint.append((rnd, tid, owner[tid], gk))
+      if gk in prev:
+        ptid, finished = prev[gk]
+        if not finished and tid != ptid:
+          bad_keep.append((rnd, gk, ptid, tid))
+        if finished and tid <= ptid:
+          bad_new.append((rnd, gk, ptid, tid))
+      prev[gk] = (tid, spec['finish'][rnd])
+  gcls = _ls_worst_class(spec['gids']) if spec['gids'] else 'none'
+  put('study.one-study-per-name/lock-step', not foreign,
+      f'(round, worker, trial) delivered trials that are not in pg.poll_result(name): {foreign[:4]}')
+  put(f'group.co-workers-share-pending-trial/lock-step/group-ids={gcls}', not bad_share,
+      f'groups {members}: (round, group, trial ids handed to its co-workers): {bad_share[:4]}')
+  put(f'delivery.exactly-one-group/lock-step/group-ids={gcls}', not bad_disjoint,
+      f'(round, trial, first group, other group): {bad_disjoint[:4]}')
+  put(f'group.pending-trial-kept-until-finished/lock-step/group-ids={gcls}', not bad_keep,
+      f'(round, group, pending trial, trial handed out instead): {bad_keep[:4]}')
+  put('group.new-trial-after-finish/lock-step', not bad_new,
+      f'(round, group, finished trial, trial handed out next): {bad_new[:4]}')
+  if foreign or bad_share or bad_disjoint or bad_keep or bad_new:
+    return out      # (worker errors and wrong counts are consequences then)
+  put('worker.no-unexpected-exception/lock-step', not shared['errors'],
+      f'worker errors: {shared["errors"][:3]}')
+  if shared['errors']:
+    return out
+  put(f'trials.count/lock-step/requested={ncls}', len(result.trials) == want_n,
+      f'{len(result.trials)} trials created; requested {spec["N"]}, the workers asked for {demand}')
+  _check_books(put, 'books/lock-step', result, [algo], shared['outcome'])
+  return out
+
+
+def _lockstep_specs(tier, seed):
+  r = rng(seed, 'c16-lockstep')
+  for pool in sorted(_LS_GIDS):
+    for kk, ng in ((1, 2), (2, 1), (2, 2), (1, 3), (2, 3), (3, 2)) + (
+        () if tier == 'quick' else ((1, 1), (3, 1), (3, 3))):
+      if True:  # pylint: disable=using-constant-test
+        for rep in range(1 if tier == 'quick' else 4):
+          rounds = r.choice((3, 4, 5))
+          finish = [r.random() < 0.6 for _ in range(rounds)]
+          finish[-1] = True
+          solos = r.choice((0, 0, 1, 2)) if kk * ng <= 6 else 0
+          gids = list(_LS_GIDS[pool][:ng])
+          r.shuffle(gids)
+          demand = (ng + solos) * (1 + sum(finish[:-1]))
+          n = r.choice((demand + 3, demand + 3, demand, max(0, demand - 1),
+                        max(0, demand - ng), 1, 0))
+          kw = r.choice(({}, {}, {'backend': 'in-memory'}))
+          yield dict(gids=gids, K=kk, solos=solos, rounds=rounds, finish=finish, N=n,
+                     salt=r.randrange(100), reenter=r.random() < 0.4, kw=kw,
+                     name=r.choice(_LS_NAMES),
+                     space=r.choice((_LS_HYPER_EXPR, _SPACE_EXPR, _SPACE_EXPR)), pool=pool)
+  # only solo workers (group=None): each is a group of its own.
+  for solos in (1, 2, 5):
+    rounds = 4
+    finish = [True, False, True, True]
+    yield dict(gids=[], K=1, solos=solos, rounds=rounds, finish=finish,
+               N=r.choice((3 * solos, 3 * solos + 2, solos)), salt=r.randrange(100),
+               reenter=True, kw={}, name='solo', space=_LS_HYPER_EXPR, pool='none')
+
+
+def _ls_witness(spec, cid):
+  return ('import bounded.c16_concurrency as m\n'
+          f'spec = {spec!r}\n'
+          f'res = m.run_lockstep(spec, "w")\n'
+          f'assert res.get({cid!r}, (True, ""))[0], res[{cid!r}][1]')
+
+
+def drv_lockstep_groups(tier, seed):
+  rec = Recorder(
+      'C16', 'named pg.sample loop, barrier-driven schedules: group ids, names, N, re-entry',
+      scope=('deterministic lock-step schedules (barriers) of 1..9 worker threads on one named in-memory '
+             'loop: 1..3 groups x 1..3 co-workers (quick: 6 of the 9 shapes) + 0..2 workers without group; group ids from 8 pools of '
+             'the documented type (str, positive ints, ints from 0, empty string, non-positive ints, ints and '
+             'strings mixed, odd strings, big ints); 3..5 rounds, in every round all workers ask for their '
+             'trial, then one co-worker finishes it (call / 2 measurements + done / skip / measurement + skip '
+             '/ measurement by one co-worker and done() by another, also after a too early done() / all '
+             'co-workers at once) or, in some rounds, nobody does (the trial must be handed out again); '
+             'N ample, exactly the demand, less, 1, 0; odd study names; hyper value or DNASpec as space; '
+             'default and explicit in-memory backend; workers that leave the loop and re-enter it; '
+             + ('quick: 1 seeded draw per (pool, co-workers, groups)' if tier == 'quick'
+                else 'thorough: 4 seeded draws per (pool, co-workers, groups)')))
+  for si, spec in enumerate(_lockstep_specs(tier, seed)):
+    res = run_lockstep(spec, f'{seed}-{si}')
+    key = (si, spec['pool'], spec['K'], len(spec['gids']), spec['solos'], spec['N'],
+           tuple(spec['finish']), spec['reenter'], spec['name'])
+    for cid, (ok, msg) in res.items():
+      rec.case(cid, key, ok, msg, _ls_witness(spec, cid))
+  return rec.result()
+
+
+# --- (2) order of operations on one trial --------------------------------------
+
+_SEQ_OPS = ('add', 'done', 'skip', 'bad-add', 'call', 'skip-exc')
+_SEQ_CLOSE = ('add', 'done')      # the proper finish that ends every sequence
+
+
+def _seq_reward(tid, i):
+  return float(tid * 100 + i)
+
+
+def _seq_model(ops, tid):
+  """What the statement allows: (outcome, class label, per-op 'must take effect')."""
+  pending, ms, outcome = True, [], None
+  flags, eff = set(), []
+  for i, op in enumerate(ops):
+    if not pending:
+      flags.add('op-after-completion')
+      eff.append(False)
+      continue
+    if op == 'add':
+      ms.append(_seq_reward(tid, i))
+      eff.append(True)
+    elif op == 'bad-add':
+      flags.add('invalid-measurement-while-pending')   # refused: changes nothing
+      eff.append(False)
+    elif op == 'done':
+      if ms:
+        pending, outcome = False, ('ok', ms[-1])
+        eff.append(True)
+      else:
+        # nothing to report: the trial cannot be completed by this call.
+        flags.add('done-without-measurement-while-pending')
+        eff.append(False)
+    elif op == 'call':
+      ms.append(_seq_reward(tid, i))
+      pending, outcome = False, ('ok', ms[-1])
+      eff.append(True)
+    elif op in ('skip', 'skip-exc'):
+      pending, outcome = False, ('skip',)
+      eff.append(True)
+    else:
+      raise ValueError(op)
+  assert not pending
+  return outcome, ('+'.join(sorted(flags)) or 'plain'), eff
+
+
+def _seq_exec(fb, op, tid, i):
+  """Executes one operation; returns the exception it raised (or None)."""
+  r = _seq_reward(tid, i)
+  try:
+    if op == 'add':
+      fb.add_measurement(r, step=i + 1)
+    elif op == 'bad-add':
+      # invalid measurements: no reward / a metric only / 2 rewards for 1 goal
+      if i % 3 == 0:
+        fb.add_measurement(None, step=i + 1)
+      elif i % 3 == 1:
+        fb.add_measurement(metrics={'other': r}, step=i + 1)
+      else:
+        fb.add_measurement([r, r], step=i + 1)
+    elif op == 'done':
+      fb.done()
+    elif op == 'skip':
+      fb.skip()
+    elif op == 'call':
+      fb(r, step=i + 1)
+    elif op == 'skip-exc':
+      with fb.skip_on_exceptions((KeyError,)):
+        raise KeyError('c16')
+    else:
+      raise ValueError(op)
+  except Exception as e:  # pylint: disable=broad-except
+    return e
+  return None
+
+
+def _seq_counts(summary):
+  st = summary.get('status') or {}
+  out = {k: int(str(st.get(k, '0/0')).split('/')[0]) for k in ('PENDING', 'COMPLETED')}
+  out['infeasible'] = int(str(summary.get('infeasible') or '0/0').split('/')[0])
+  return out
+
+
+def _seq_sequences(tier, seed):
+  depth = 3 if tier == 'quick' else 4
+  seqs = []
+  for n in range(0, depth + 1):
+    seqs.extend(itertools.product(_SEQ_OPS, repeat=n))
+  rng(seed, 'c16-seq').shuffle(seqs)
+  return [tuple(q) + _SEQ_CLOSE for q in seqs]
+
+
+def run_sequences(seqs, mode, tag, group=None):
+  """One named loop with one trial per sequence.
+
+  mode 'solo': one worker executes every operation.  mode 'alternate-0/1':
+  two co-workers of one group hold every trial; operation i is executed by
+  co-worker (i + phase) % 2, a barrier separates the operations.
+  Returns a list of (case_id, key, ok, message).
+  """
+  name = f'c16seq-{os.getpid()}-{next(_run_counter)}-{tag}'
+  space = eval(_SPACE_EXPR, _NS)  # pylint: disable=eval-used
+  algo = _make_algo('random', 7)
+  algo.setup(space)
+  nw = 1 if mode == 'solo' else 2
+  phase = 1 if mode.endswith('1') else 0
+  barrier = threading.Barrier(nw, timeout=_BARRIER_SECS)
+  found = []
+  errors = []
+  got = {}
+  state = {}
+
+  def note(cid, key, ok, msg):
+    found.append((cid, key, bool(ok), msg))
+
+  def verify(t_index, ops, fb, raised):
+    tid = t_index + 1
+    outcome, label, eff = _seq_model(ops, tid)
+    key = (mode, ops)
+    pre = f'finish-sequence/{label}'
+    refused = [(i, ops[i], f'{type(e).__name__}: {str(e)[:80]}')
+               for i, e in enumerate(raised) if e is not None and eff[i]]
+    note(f'{pre}/valid-operation-accepted', key, not refused,
+         f'{ops}: operations on the pending trial that must take effect raised: {refused[:3]}')
+    trial = fb.get_trial()
+    fm = trial.final_measurement
+    want_inf = outcome[0] == 'skip'
+    ok_state = (fb.id == tid and trial.status == 'COMPLETED' and trial.infeasible == want_inf
+                and fm is not None and fm.reward == (0.0 if want_inf else outcome[1]))
+    note(f'{pre}/trial-completed-with-the-outcome-of-the-first-valid-finish', key, ok_state,
+         f'{ops} on trial {tid}: status={trial.status}, infeasible={trial.infeasible}, final reward '
+         f'{fm and fm.reward}; expected COMPLETED, '
+         + ('infeasible' if want_inf else f'reward {outcome[1]}')
+         + f' (exceptions: {[type(e).__name__ if e else None for e in raised]})')
+    fed = _fed_by_serial([algo]).get(trial.dna.metadata.get('c16'), [])
+    note(f'{pre}/reported-to-the-algorithm-exactly-once', key,
+         fed == ([] if want_inf else [outcome[1]]),
+         f'{ops} on trial {tid}: rewards fed back {fed}, expected '
+         f'{[] if want_inf else [outcome[1]]}')
+    # counts and best trial: compared with the snapshot taken when the trial
+    # had just been handed out (so that one bad trial is not blamed on the
+    # sequences that follow it).
+    before = state['before']
+    result = pg.poll_result(name)
+    summary = ast.literal_eval(result.format(compact=True))
+    after = _seq_counts(summary)
+    want = dict(before)
+    want['PENDING'] -= 1
+    want['COMPLETED'] += 1
+    want['infeasible'] += 1 if want_inf else 0
+    note(f'{pre}/result-counts-add-up', key, after == want and len(result.trials) == tid,
+         f'after {ops} on trial {tid}: counts {after} ({len(result.trials)} trials); when the trial '
+         f'was handed out: {before}; expected now: {want}')
+    best = result.best_trial
+    sb = summary.get('best_trial') or {}
+    pb = state['best_before']      # (id, reward) or None
+    if not want_inf and (pb is None or outcome[1] > pb[1]):
+      wb = (tid, outcome[1])
+    else:
+      wb = pb
+    gb = None if best is None else (best.id, best.final_measurement and best.final_measurement.reward)
+    note(f'{pre}/best-trial', key,
+         gb == wb and (None if not sb else (sb.get('id'), sb.get('reward'))) == wb,
+         f'after {ops} on trial {tid}: best trial (id, reward) {gb}, summary {sb}; before: {pb}; '
+         f'expected {wb}')
+
+  def snapshot():
+    result = pg.poll_result(name)
+    state['before'] = _seq_counts(ast.literal_eval(result.format(compact=True)))
+    b = result.best_trial
+    state['best_before'] = None if b is None else (
+        b.id, b.final_measurement and b.final_measurement.reward)
+
+  def worker(k):
+    try:
+      it = iter(pg.sample(space, algo, num_examples=len(seqs), name=name, group=group))
+      for t_index, ops in enumerate(seqs):
+        _, fb = next(it)
+        got[(k, t_index)] = fb.id
+        barrier.wait()
+        if k == 0:
+          snapshot()
+        if nw > 1:
+          barrier.wait()
+        raised = [None] * len(ops)
+        for i, op in enumerate(ops):
+          if (i + phase) % nw == k:
+            raised[i] = _seq_exec(fb, op, t_index + 1, i)
+          if nw > 1:
+            barrier.wait()
+        if nw > 1:
+          shared_raised[(k, t_index)] = raised
+          barrier.wait()
+        if k == 0:
+          if nw > 1:
+            o = shared_raised[(1, t_index)]
+            raised = [a if a is not None else b for a, b in zip(raised, o)]
+          verify(t_index, ops, fb, raised)
+        if nw > 1:
+          barrier.wait()
+      try:
+        _, fb = next(it)
+        errors.append((k, f'a trial ({fb.id}) beyond the {len(seqs)} requested was handed out'))
+      except StopIteration:
+        pass
+    except threading.BrokenBarrierError:
+      pass
+    except BaseException as e:  # pylint: disable=broad-except
+      tb = traceback.extract_tb(e.__traceback__)
+      where = ' <- '.join(f'{os.path.basename(f.filename)}:{f.lineno}:{f.name}' for f in tb[-3:])
+      errors.append((k, f'{type(e).__name__}: {e} [{where}]'))
+      barrier.abort()
+
+  shared_raised = {}
+  threads = [threading.Thread(target=worker, args=(k,), daemon=True) for k in range(nw)]
+  # (skip_on_exceptions logs a warning with a traceback for every skipped trial)
+  old_logger = pg.logging.get_logger()
+  quiet = logging.getLogger('c16-quiet')
+  quiet.setLevel(logging.CRITICAL)
+  quiet.propagate = False
+  pg.logging.set_logger(quiet)
+  try:
+    for t in threads:
+      t.start()
+    for t in threads:
+      t.join(120.0)
+  finally:
+    pg.logging.set_logger(old_logger)
+  hung = [i for i, t in enumerate(threads) if t.is_alive()]
+  note('liveness.all-workers-terminate/finish-sequence', (mode,), not hung,
+       f'workers {hung} still running')
+  bad = [f for f in found if not f[2]]
+  if not bad:
+    # (after a failed trial everything else is a consequence)
+    note('worker.no-unexpected-exception/finish-sequence', (mode,), not errors,
+         f'worker errors: {errors[:3]}')
+    if nw > 1:
+      differ = [(t, got.get((0, t)), got.get((1, t))) for t in range(len(seqs))
+                if got.get((0, t)) != got.get((1, t))]
+      note('group.co-workers-share-pending-trial/finish-sequence', (mode,), not differ,
+           f'(sequence, trial of co-worker 0, trial of co-worker 1): {differ[:4]}')
+  return found
+
+
+def _seq_witness(ops, mode, cid):
+  return ('import bounded.c16_concurrency as m\n'
+          f'res = m.run_sequences([{ops!r}], {mode!r}, "w", group=("pair" if {mode!r} != "solo" else None))\n'
+          f'bad = [f for f in res if f[0] == {cid!r} and not f[2]]\n'
+          'assert not bad, bad[0][3]')
+
+
+def drv_finish_sequences(tier, seed):
+  rec = Recorder(
+      'C16', 'named pg.sample loop: every order of feedback operations on one trial',
+      scope=('one named in-memory loop per mode, one trial per sequence; all sequences of length 0..3 '
+             '(thorough: 0..4) over {add_measurement, done, skip, invalid add_measurement (no reward / metric '
+             'only / two rewards), feedback(reward), exception inside skip_on_exceptions}, each followed by '
+             'a proper finish (add_measurement; done); modes: one worker / two co-workers of a group that '
+             'execute the operations alternately (either one first), separated by barriers; after every '
+             'trial (a quiescent point) the trial, the feedback log of the algorithm, the counts of the '
+             'result and the best trial are compared with the outcome of the first operation that can '
+             'complete the trial (done() without a measurement cannot: there is nothing to report)'))
+  seqs = _seq_sequences(tier, seed)
+  for mode, group in (('solo', None), ('alternate-0', 'pair'), ('alternate-1', 0)):
+    for cid, key, ok, msg in run_sequences(seqs, mode, f'{seed}', group=group):
+      ops = key[1] if len(key) > 1 else seqs[0]
+      rec.case(cid, key, ok, msg, _seq_witness(ops, mode, cid))
+  return rec.result()
+
+
+DRIVERS = [drv_concurrent_sampling, drv_lockstep_groups, drv_finish_sequences]
 
 
 def replay(rec):
